@@ -7,53 +7,82 @@ Model functions ↔ Rust (Model/Plan.lean, Model/Satisfy.lean, Lemmas/PlanLocks.
   keyTemplate / keyGetSatisfaction ↔ Pkh/Wpkh::{plan_satisfaction, get_satisfaction}
   witnessToScriptSig ↔ util::witness_to_scriptsig  scriptsigSize/witnessSize ↔ Plan::{scriptsig_size, witness_size}
   isKeyDirectChildOf / hasEcdsaKey ↔ plan::is_key_direct_child_of / Assets::has_ecdsa_key (total)
+  tryCompleting ↔ Satisfaction::try_completing (with its raw-pkh key fallback); complete ↔ the
+               plain `satisfy_self` map of Plan::satisfy; Stfr / Stfr.assets / Stfr.realise ↔ a
+               Satisfier, `impl AssetProvider for Satisfier`, Placeholder::satisfy_self
   tSatDissat ↔ Satisfaction::sat_dissat carrying, next to every (dis)satisfaction, the list of
                `after` / `older` values of the fragments that (dis)satisfaction executes
-The plan path and the descriptor path run the same `sat_dissat`; the T1 theorems are about
-the glue and hold for EVERY template `t : Sat`.
+               (Lemmas/PlanLocks.lean); Lemmas/PlanLockExec.lean links the lists to EXECUTION
 
-History: the negations of T1b (F9: `Plan::satisfy` for `sh(<miniscript>)` dropped the redeem
-script and pushed `[1]` non-minimally) and of T5 (F7: `is_key_direct_child_of` panicked on an
-origin-less key) were proved here against the earlier code; both are fixed in /repo, the model
-follows the fixed code and the theorems are now stated at full strength.  Still proved as
-negations: three size formulas that undershoot (`wsh` / `sh(wsh)` witness script not counted,
-`sh(wpkh)` / `sh(wsh)` scriptSig 23 / 35 instead of 24 / 36).
+T1: `plan_faithful` (full strength on the model; completion hypothesis discharged by
+    `plan_iff_satisfy_ok` / `plan_completes`), `plan_satisfy_eq` (all 8 types), key descriptors.
+T2/T3: `locks_sufficient_exec`, `locks_necessary_exec(_abs/_rel)` — about `Script.run` on the
+    encoded script; `locks_sufficient` / `locks_necessary` are the list-level lemmas behind them.
+T5: key-source matching.  Sizes: proved bounds (bare/pkh/sh scriptSig, wpkh/sh-wpkh/tr witness)
+    and `_false` theorems for the keyed findings (wsh/sh-wsh witness, sh-wpkh/sh-wsh scriptSig).
+History: F7 / F9 (found here) are fixed in /repo; the model follows the fixed code.
 -/
 import MsVerif.Model.Plan
 import MsVerif.Lemmas.PlanLocks
+import MsVerif.Lemmas.PlanSizes
+import MsVerif.Lemmas.PlanLockExec
+import MsVerif.Lemmas.PlanComplete
+import MsVerif.Thm.C01
 
 namespace MsVerif.C17
-open MsVerif MsVerif.Plan MsVerif.Script MsVerif.PlanLocks MsVerif.Sat
+open MsVerif MsVerif.Plan MsVerif.Script MsVerif.PlanLocks MsVerif.Sat MsVerif.PlanSizes
+open MsVerif.SatSpec MsVerif.PlanLockExec MsVerif.PlanComplete
 
 /-! ## T1 — a plan exists exactly when the satisfier succeeds, and completes to the same bytes -/
 
 /-- T1a: for every descriptor type and every template, `into_plan` returns a plan iff
 `get_satisfaction` does not return `Err`; and `get_satisfaction` panics (the `expect` after
-`try_completing`) exactly when a plan exists that the satisfier cannot complete. -/
-theorem plan_iff_satisfy (d : DescData) (r : Ph → Option Bytes) (t : Sat) :
-    ((intoPlan t).isSome ↔ descGetSatisfaction d r t ≠ .err) ∧
-    (descGetSatisfaction d r t = .panic ↔
-      ∃ p, intoPlan t = some p ∧ p.satisfy d r = none) := by
-  unfold intoPlan descGetSatisfaction msSatisfy PlanM.satisfy
+`try_completing`) exactly when a plan exists whose template `try_completing` cannot complete. -/
+theorem plan_iff_satisfy (d : DescData) (r : Ph → Option Bytes) (fb : Nat → Option Bytes) (t : Sat) :
+    ((intoPlan t).isSome ↔ descGetSatisfaction d r fb t ≠ .err) ∧
+    (descGetSatisfaction d r fb t = .panic ↔
+      ∃ p, intoPlan t = some p ∧ tryCompleting r fb none p.template = none) := by
+  unfold intoPlan descGetSatisfaction msSatisfy
   cases h : t.stack with
-  | stack l => cases hc : complete r l <;> simp [hc]
+  | stack l => cases hc : tryCompleting r fb none l <;> simp [hc]
   | unavailable => simp
   | impossible => simp
 
-/-- T1a with the completion hypothesis (every placeholder of a template built from the
-provider view of a satisfier can be produced by that satisfier): plan ⇔ `Ok`. -/
-theorem plan_iff_satisfy_ok (d : DescData) (r : Ph → Option Bytes) (t : Sat)
-    (hc : ∀ l, t.stack = .stack l → (complete r l).isSome) :
-    (intoPlan t).isSome ↔ ∃ x, descGetSatisfaction d r t = .ok x := by
+/-- T1a for the MODEL'S satisfier (the completion hypothesis discharged): let the provider be
+the `impl AssetProvider for Satisfier` view of a satisfier `S` (`c.assets = S.assets c.ctx`).
+Then for every script, both modes: `get_satisfaction` never hits its `expect` — every
+placeholder of the template is one `S` can produce (with `try_completing`'s fallback for the
+key of a tapscript raw pkh) — so a plan exists iff `get_satisfaction` returns `Ok`. -/
+theorem plan_iff_satisfy_ok (S : Stfr) (c : SatCfg) (hc : c.assets = S.assets c.ctx)
+    (d : DescData) (ms : Ms) :
+    descGetSatisfaction d S.realise S.fallback (satDissat c ms).sat ≠ .panic ∧
+    ((intoPlan (satDissat c ms).sat).isSome ↔
+      ∃ x, descGetSatisfaction d S.realise S.fallback (satDissat c ms).sat = .ok x) := by
+  have hL : LeafOk (TryOk S.realise S.fallback) c.env c.ctx c.assets := hc ▸ leafOk_try S c.env c.ctx
+  have hinv := (satDissat_sinv tryOk_closed c hL ms).2
   unfold intoPlan descGetSatisfaction msSatisfy
-  cases h : t.stack with
+  cases h : (satDissat c ms).sat.stack with
   | stack l =>
-    have := hc l h
-    cases hcl : complete r l with
-    | none => simp [hcl] at this
-    | some bs => simp [hcl]
+    obtain ⟨bs, hbs⟩ := Option.isSome_iff_exists.mp (hinv l h none)
+    simp [hbs]
   | unavailable => simp
   | impossible => simp
+
+/-- … and `Plan::satisfy` (the same `Placeholder::satisfy_all`) completes every such plan -/
+theorem plan_completes (S : Stfr) (c : SatCfg) (hc : c.assets = S.assets c.ctx)
+    (d : DescData) (ms : Ms) (p : PlanM) (hp : intoPlan (satDissat c ms).sat = some p) :
+    (p.satisfy d S.realise S.fallback).isSome := by
+  have hL : LeafOk (TryOk S.realise S.fallback) c.env c.ctx c.assets := hc ▸ leafOk_try S c.env c.ctx
+  have hinv := (satDissat_sinv tryOk_closed c hL ms).2
+  unfold intoPlan at hp
+  cases h : (satDissat c ms).sat.stack with
+  | stack l =>
+    simp only [h, Option.some.injEq] at hp
+    subst hp
+    obtain ⟨bs, hbs⟩ := Option.isSome_iff_exists.mp (hinv l h none)
+    simp [PlanM.satisfy, hbs]
+  | unavailable => simp [h] at hp
+  | impossible => simp [h] at hp
 
 /-- T1b (assembly), all eight descriptor types: `Plan::satisfy` and `get_satisfaction` build
 the same (witness, scriptSig) from the same completed stack.  Unconditional for bare, sh, wpkh,
@@ -82,31 +111,79 @@ theorem plan_satisfy_sh (script : Bytes) (stack : List Bytes) :
   · rfl
   · decide
 
-/-- T1 end to end for the miniscript-based types and `tr`: whenever `get_satisfaction`
-returns `Ok x`, a plan exists, carries the template's locks, and completing it with the same
-satisfier returns exactly `x`. -/
-theorem plan_satisfy_eq_e2e (d : DescData) (hty : d.ty ≠ .pkh) (r : Ph → Option Bytes) (t : Sat)
-    (x : List Bytes × Bytes) (h : descGetSatisfaction d r t = .ok x) :
-    ∃ p, intoPlan t = some p ∧ p.abs = t.abs ∧ p.rel = t.rel ∧ p.satisfy d r = some x := by
-  unfold descGetSatisfaction msSatisfy at h
+/-- T1 end to end for the miniscript-based types and `tr`, ANY satisfier and template:
+`Plan::satisfy` returns `x` iff `get_satisfaction` returns `Ok x` (both complete the template
+with the same `Placeholder::satisfy_all` and assemble the same bytes), and the plan carries the
+template's locks. -/
+theorem plan_satisfy_eq_e2e (d : DescData) (hty : d.ty ≠ .pkh) (r : Ph → Option Bytes)
+    (fb : Nat → Option Bytes) (t : Sat) (p : PlanM) (hp : intoPlan t = some p) :
+    p.abs = t.abs ∧ p.rel = t.rel ∧
+    ∀ x, p.satisfy d r fb = some x ↔ descGetSatisfaction d r fb t = .ok x := by
+  unfold intoPlan at hp
   cases hs : t.stack with
   | stack l =>
-    rw [hs] at h
-    cases hc : complete r l with
-    | none => simp [hc] at h
-    | some bs =>
-      simp only [hc] at h
-      injection h with h
-      refine ⟨⟨l, t.abs, t.rel⟩, by simp [intoPlan, hs], rfl, rfl, ?_⟩
-      simp only [PlanM.satisfy, hc, Option.map_some]
-      rw [plan_satisfy_eq_non_pkh d bs hty, h]
-  | unavailable => rw [hs] at h; simp at h
-  | impossible => rw [hs] at h; simp at h
+    simp only [hs, Option.some.injEq] at hp
+    subst hp
+    refine ⟨rfl, rfl, fun x => ?_⟩
+    simp only [PlanM.satisfy, descGetSatisfaction, msSatisfy, hs]
+    cases hc : tryCompleting r fb none l with
+    | none => simp
+    | some bs => simp [plan_satisfy_eq_non_pkh d bs hty]
+  | unavailable => simp [hs] at hp
+  | impossible => simp [hs] at hp
 
-example : descGetSatisfaction ⟨.wsh, [0xac], []⟩ (fun _ => some [7]) ⟨.stack [.ecdsaSig 0], true, none, some 10⟩
+/-- **T1 at full strength on the model**: provider = view of the satisfier `S`, every script,
+both modes, every miniscript-based descriptor type and `tr`: a plan exists iff
+`get_satisfaction` succeeds, the plan carries the template's locks, and completing it with
+`S` returns byte for byte what `get_satisfaction` returns. -/
+theorem plan_faithful (S : Stfr) (c : SatCfg) (hc : c.assets = S.assets c.ctx)
+    (d : DescData) (hty : d.ty ≠ .pkh) (ms : Ms) :
+    ((intoPlan (satDissat c ms).sat).isSome ↔
+      ∃ x, descGetSatisfaction d S.realise S.fallback (satDissat c ms).sat = .ok x) ∧
+    ∀ p, intoPlan (satDissat c ms).sat = some p →
+      p.abs = (satDissat c ms).sat.abs ∧ p.rel = (satDissat c ms).sat.rel ∧
+      ∃ x, p.satisfy d S.realise S.fallback = some x ∧
+        descGetSatisfaction d S.realise S.fallback (satDissat c ms).sat = .ok x := by
+  refine ⟨(plan_iff_satisfy_ok S c hc d ms).2, fun p hp => ?_⟩
+  obtain ⟨x, hx⟩ := Option.isSome_iff_exists.mp (plan_completes S c hc d ms p hp)
+  obtain ⟨ha, hr, h1⟩ := plan_satisfy_eq_e2e d hty S.realise S.fallback _ p hp
+  exact ⟨ha, hr, x, hx, (h1 x).mp hx⟩
+
+/-- a satisfier that knows the (key, signature) pair of a tapscript raw pkh only through
+`lookup_raw_pkh_tap_leaf_script_sig` -/
+def exSigOnly : Stfr where
+  ecdsaSig _ := none
+  schnorrSig _ := none
+  keyBytes _ _ := []
+  rawPk _ := none
+  rawXonly _ := none
+  rawEcdsa _ := none
+  rawSchnorr h := if h = 0 then some (0, List.replicate 32 2, List.replicate 64 7) else none
+  preimage _ _ := none
+  checkOlder _ := false
+  checkAfter _ := false
+
+def exSigOnlyCfg : SatCfg :=
+  ⟨⟨fun _ => [], fun _ => [], fun _ => [], fun _ => [], fun _ _ => []⟩, .tap, false, true, exSigOnly.assets .tap⟩
+
+/-- regression example (the former `plan_completes_full_false` witness): for the tapscript
+leaf `c:expr_raw_pkh(H)` and the satisfier above, `Plan::satisfy` used to return
+`CouldNotSatisfy` (plain `satisfy_self`) where `get_satisfaction` succeeded; both now take the
+key that comes with the signature and return the same witness -/
+example :
+    intoPlan (satDissat exSigOnlyCfg (.check (.rawPkH 0))).sat
+      = some ⟨[.schnorrSigPkh 0 64, .pubkeyHash 0 33], none, none⟩ ∧
+    PlanM.satisfy ⟨.tr, [], []⟩ exSigOnly.realise exSigOnly.fallback
+        ⟨[.schnorrSigPkh 0 64, .pubkeyHash 0 33], none, none⟩
+      = some ([List.replicate 64 7, List.replicate 32 2], []) ∧
+    descGetSatisfaction ⟨.tr, [], []⟩ exSigOnly.realise exSigOnly.fallback
+        (satDissat exSigOnlyCfg (.check (.rawPkH 0))).sat
+      = .ok ([List.replicate 64 7, List.replicate 32 2], []) := by decide
+
+example : descGetSatisfaction ⟨.wsh, [0xac], []⟩ (fun _ => some [7]) (fun _ => none) ⟨.stack [.ecdsaSig 0], true, none, some 10⟩
     = .ok ([[7], [0xac]], []) := by decide
 example : descGetSatisfaction ⟨.sh, [0xac], []⟩ (fun p => if p = .pushOne then some [1] else some [9, 9, 9, 9, 9])
-    ⟨.stack [.ecdsaSig 0, .pushOne], true, none, none⟩ = .ok ([], [5, 9, 9, 9, 9, 9, 0x51, 0x01, 0xac]) := by decide
+    (fun _ => none) ⟨.stack [.ecdsaSig 0, .pushOne], true, none, none⟩ = .ok ([], [5, 9, 9, 9, 9, 9, 0x51, 0x01, 0xac]) := by decide
 
 /-- T1 for the single-key descriptors (`pkh`, `wpkh`, `sh(wpkh)`): a plan exists iff the
 provider has the key; the satisfier succeeds iff it has a signature; with the provider being
@@ -114,11 +191,11 @@ the view of the satisfier (`avail = sig.isSome`) the two coincide and the plan c
 the same bytes (`pkh`: signature and key longer than 4 bytes, as all are). -/
 theorem key_plan_iff_satisfy_eq (d : DescData) (_hty : d.ty = .pkh ∨ d.ty = .wpkh ∨ d.ty = .shWpkh)
     (k : Key) (n : Nat) (sig : Option Bytes) (pk : Bytes) (r : Ph → Option Bytes)
-    (hsig : r (.ecdsaSig k) = sig) (hpk : r (.pubkey k n) = some pk)
+    (fb : Nat → Option Bytes) (hsig : r (.ecdsaSig k) = sig) (hpk : r (.pubkey k n) = some pk)
     (hlen : d.ty = .pkh → 4 < pk.length ∧ ∀ s, sig = some s → 4 < s.length) :
     ((intoPlan (keyTemplate k n sig.isSome)).isSome ↔ ∃ x, keyGetSatisfaction d sig pk = .ok x) ∧
     ∀ p, intoPlan (keyTemplate k n sig.isSome) = some p →
-      (p.satisfy d r).map Outcome.ok = some (keyGetSatisfaction d sig pk) := by
+      (p.satisfy d r fb).map Plan.Outcome.ok = some (keyGetSatisfaction d sig pk) := by
   cases sig with
   | none => simp [keyTemplate, intoPlan, keyGetSatisfaction]
   | some s =>
@@ -126,8 +203,8 @@ theorem key_plan_iff_satisfy_eq (d : DescData) (_hty : d.ty = .pkh ∨ d.ty = .w
     intro p hp
     simp only [keyTemplate, intoPlan, Option.isSome_some, if_true, Option.some.injEq] at hp
     subst hp
-    have hc : complete r [Ph.ecdsaSig k, Ph.pubkey k n] = some [s, pk] := by
-      simp [complete, hsig, hpk]
+    have hc : tryCompleting r fb none [Ph.ecdsaSig k, Ph.pubkey k n] = some [s, pk] := by
+      simp [tryCompleting, hsig, hpk]
     simp only [PlanM.satisfy, hc, keyGetSatisfaction, Option.map_some]
     rw [plan_satisfy_eq d [s, pk]]
     intro hp b hb
@@ -282,6 +359,235 @@ theorem locks_necessary_rel_variants_fail (c : SatCfg) (ms : Ms) (env : Script.E
     · omega
     · omega
 
+/-! ### the link to EXECUTION
+
+The lists `A` / `R` are not just bookkeeping: `Lemmas/PlanLockExec.lean` proves, by induction
+over the AST with the same case analysis as C01's soundness proof (every fragment incl.
+`thresh`, both modes, any assets), that a (dis)satisfaction whose lists contain a lock the
+transaction does not meet makes the emitted opcodes end in `unsatisfiedLocktime` — the
+fragments executed before the offending CLTV / CSV run exactly as C01's `sat_sound` says.
+With T3 (the reported lock is a member of the list) and the bridge theorem
+(`run (encode ms) = frag ms`) this gives the property's lock sentence about real opcode
+execution: the spend validates with the reported locks and fails with the lock-time error
+below them, in the other unit, or with a final / disabled sequence. -/
+
+section exec
+variable {env : Env} {σ : Ph → Bytes} {cfg : SatCfg}
+
+/-- **Necessity, on the opcode interpreter.**  If the satisfier returns a satisfaction for a
+well-typed `B` script and the transaction does NOT pass CLTV for the reported absolute lock
+or CSV for the reported relative lock, then executing the encoded script on exactly that
+witness ends in `Err.unsatisfiedLocktime` (structured semantics and flat interpreter), so the
+spend is rejected.  Every fragment, both modes, any asset set. -/
+theorem locks_necessary_exec (henv : EnvOk env cfg.ctx) (hag : Agrees env cfg.env cfg.assets σ)
+    (ms : Ms) (τ : Ty) (hwf : WF cfg.ctx ms) (hty : typeOf ms = some τ) (hB : τ.corr.base = .B)
+    (w : List Ph) (hs : (satDissat cfg ms).sat.stack = .stack w)
+    (hbad : (∃ m, (satDissat cfg ms).sat.abs = some m ∧ checkLockTime env m = false) ∨
+            (∃ m, (satDissat cfg ms).sat.rel = some m ∧ checkSequence env m = false)) :
+    frag env cfg.env cfg.ctx ms ⟨stk σ w, [], 0⟩ = .error .unsatisfiedLocktime ∧
+    run env (encode cfg.env cfg.ctx ms) (State.init (stk σ w)) = .error .unsatisfiedLocktime ∧
+    Script.accepts env (encode cfg.env cfg.ctx ms) (stk σ w) = false := by
+  have hse := (tSatDissat_s cfg ms).2
+  have hi := (tSatDissat_inv cfg ms).2
+  have hbl : Blocks env (tSatDissat cfg ms).sat := by
+    rcases hbad with ⟨m, hm, hc⟩ | ⟨m, hm, hc⟩
+    · have h := hi.1
+      rw [hse] at h
+      simp only [hm, AbsInv] at h
+      exact .inl ⟨m, h.1, hc⟩
+    · have h := hi.2
+      rw [hse] at h
+      simp only [hm, RelInv] at h
+      exact .inr ⟨m, h.1, hc⟩
+  have hf := (fsound_all henv hag ms τ hwf hty).sat w (by rw [hse]; exact hs) hbl
+  have hf' := (satFails_nonW (by simp [hB])).mp hf [] [] 0
+  simp only [List.append_nil] at hf'
+  have hb := Bridge.exec_encode_eq_frag_nostack env cfg.env cfg.ctx ms ⟨stk σ w, [], 0⟩ [] rfl
+    henv.stackLimits
+  refine ⟨hf', ?_, ?_⟩
+  · unfold State.init; rw [hb, hf']; rfl
+  · unfold Script.accepts State.init; rw [hb, hf']; rfl
+
+/-- the same with the three ways to undercut an absolute lock spelled out: smaller
+nLockTime, nLockTime of the other unit, final sequence -/
+theorem locks_necessary_exec_abs (henv : EnvOk env cfg.ctx) (hag : Agrees env cfg.env cfg.assets σ)
+    (ms : Ms) (τ : Ty) (hwf : WF cfg.ctx ms) (hty : typeOf ms = some τ) (hB : τ.corr.base = .B)
+    (w : List Ph) (hs : (satDissat cfg ms).sat.stack = .stack w) (m : Nat)
+    (hm : (satDissat cfg ms).sat.abs = some m)
+    (hbad : env.nLockTime < m ∨ ¬ (env.nLockTime < 500000000 ↔ m < 500000000) ∨
+            env.nSequence = SEQ_FINAL) :
+    Script.accepts env (encode cfg.env cfg.ctx ms) (stk σ w) = false := by
+  refine (locks_necessary_exec henv hag ms τ hwf hty hB w hs (.inl ⟨m, hm, ?_⟩)).2.2
+  cases hc : checkLockTime env m with
+  | false => rfl
+  | true =>
+    exfalso
+    simp only [checkLockTime, Bool.and_eq_true, Bool.or_eq_true,
+      decide_eq_true_eq, bne_iff_ne, ne_eq] at hc
+    simp only [LOCKTIME_THRESHOLD] at hc
+    rcases hbad with h1 | h1 | h1
+    · omega
+    · omega
+    · exact hc.2 h1
+
+/-- … and a relative lock: smaller value, other unit, disabled sequence, version < 2 -/
+theorem locks_necessary_exec_rel (henv : EnvOk env cfg.ctx) (hag : Agrees env cfg.env cfg.assets σ)
+    (ms : Ms) (τ : Ty) (hwf : WF cfg.ctx ms) (hty : typeOf ms = some τ) (hB : τ.corr.base = .B)
+    (w : List Ph) (hs : (satDissat cfg ms).sat.stack = .stack w) (m : Nat)
+    (hm : (satDissat cfg ms).sat.rel = some m)
+    (hbad : relVal env.nSequence < relVal m ∨ relIsTime env.nSequence ≠ relIsTime m ∨
+            (env.nSequence / SEQ_DISABLE) % 2 = 1 ∨ env.txVersion < 2) :
+    Script.accepts env (encode cfg.env cfg.ctx ms) (stk σ w) = false := by
+  refine (locks_necessary_exec henv hag ms τ hwf hty hB w hs (.inr ⟨m, hm, ?_⟩)).2.2
+  cases hc : checkSequence env m with
+  | false => rfl
+  | true =>
+    exfalso
+    simp only [checkSequence, Bool.and_eq_true, Bool.or_eq_true, decide_eq_true_eq, beq_iff_eq] at hc
+    simp only [SEQ_DISABLE, seqMasked, SEQ_TYPE, SEQ_MASK] at hc
+    simp only [relVal, relIsTime, SEQ_DISABLE, ne_eq] at hbad
+    rcases hbad with h1 | h1 | h1 | h1
+    · omega
+    · apply h1
+      have : (env.nSequence / 4194304 % 2 = 1) ↔ (m / 4194304 % 2 = 1) := by omega
+      rw [Bool.eq_iff_iff]
+      simpa using this
+    · omega
+    · omega
+
+/-- **Sufficiency, on the opcode interpreter** (C01's `top_level_sat_sound_exec` at equality):
+a transaction whose nLockTime equals the reported absolute lock (sequence not final) and
+whose nSequence carries the reported relative lock's unit and value (disable flag clear,
+version ≥ 2) makes the encoded script ACCEPT exactly that witness. -/
+theorem locks_sufficient_exec (henv : EnvOk env cfg.ctx) (hag : Agrees env cfg.env cfg.assets σ)
+    (ms : Ms) (τ : Ty) (hwf : WF cfg.ctx ms) (hty : typeOf ms = some τ) (hB : τ.corr.base = .B)
+    (w : List Ph) (hs : (satDissat cfg ms).sat.stack = .stack w)
+    (habs : ∀ m, (satDissat cfg ms).sat.abs = some m →
+      env.nLockTime = m ∧ env.nSequence ≠ SEQ_FINAL)
+    (hrel : ∀ m, (satDissat cfg ms).sat.rel = some m →
+      seqMasked env.nSequence = seqMasked m ∧ (env.nSequence / SEQ_DISABLE) % 2 = 0 ∧
+      env.txVersion ≥ 2) :
+    Script.accepts env (encode cfg.env cfg.ctx ms) (stk σ w) = true := by
+  refine C01.top_level_sat_sound_exec henv hag ms τ hwf hty hB w hs ⟨?_, ?_⟩
+  · intro m hm
+    obtain ⟨hl, hsq⟩ := habs m hm
+    simp only [checkLockTime, Bool.and_eq_true, Bool.or_eq_true, decide_eq_true_eq, bne_iff_ne,
+      ne_eq]
+    simp only [LOCKTIME_THRESHOLD, hl]
+    refine ⟨⟨?_, Nat.le_refl _⟩, hsq⟩
+    omega
+  · intro m hm
+    obtain ⟨hsm, hdis, hv⟩ := hrel m hm
+    simp only [SEQ_DISABLE] at hdis
+    simp only [checkSequence, Bool.and_eq_true, Bool.or_eq_true, decide_eq_true_eq, beq_iff_eq]
+    simp only [hsm]
+    simp only [SEQ_DISABLE, seqMasked, SEQ_TYPE, SEQ_MASK]
+    refine ⟨⟨hv, hdis⟩, ?_, Nat.le_refl _⟩
+    omega
+
+end exec
+
+/-! non-vacuity of the execution theorems: a small world of our own (33-byte keys
+`02 00…00 k`, a signature is valid iff it is `key ++ [1]`, hashing appends a byte) in which
+every hypothesis holds -/
+namespace Toy
+
+def ser (k : Key) : Bytes := 2 :: (List.replicate 31 0 ++ [UInt8.ofNat k])
+def pre (h : Nat) : Bytes := List.replicate 31 9 ++ [UInt8.ofNat h]
+def toyHash (b : Bytes) : Bytes := b ++ [7]
+
+def ke : KeyEnv where
+  ser := ser
+  sortKey := ser
+  pkh k := toyHash (ser k)
+  rawPkh h := toyHash (ser h)
+  hashVal _ h := toyHash (pre h)
+
+/-- segwit-v0 standardness flags, limits off -/
+def tEnv (lockTime seq : Nat) : Env where
+  flags := ⟨false, true, true, true, true, false, false⟩
+  sigOk pk sig := sig == pk ++ [1]
+  hash _ b := toyHash b
+  nLockTime := lockTime
+  nSequence := seq
+  txVersion := 2
+
+def tσ : Ph → Bytes
+  | .pubkey k _ => ser k
+  | .pubkeyHash h _ => ser h
+  | .ecdsaSig k => ser k ++ [1]
+  | .ecdsaSigPkh h => ser h ++ [1]
+  | .schnorrSig k _ => ser k ++ [1]
+  | .schnorrSigPkh h _ => ser h ++ [1]
+  | .preimage _ h => pre h
+  | .hashDissat => List.replicate 32 0
+  | .pushOne => [1]
+  | .pushZero => []
+
+/-- `and_v(v:pk(K0),or_d(pk(K1),older(144)))` -/
+def ms : Ms := .andV (.verify (.check (.pkK 0))) (.orD (.check (.pkK 1)) (.older 144))
+def ty : Ty := ⟨⟨.B, .anyNonZero, false, false⟩, ⟨.none, true, true⟩⟩
+
+/-- signature for K0 only, and 144 blocks have passed -/
+def assets : Assets :=
+  ⟨fun k => k == 0, fun _ => none, fun _ => none, fun _ => none, fun _ => none,
+   fun _ _ => false, fun n => n == 144, fun _ => false⟩
+
+def cfg : SatCfg := ⟨ke, .segwitv0, false, true, assets⟩
+
+end Toy
+
+open Toy in
+theorem toy_envOk (lt sq : Nat) : EnvOk (tEnv lt sq) .segwitv0 := ⟨rfl, rfl, rfl⟩
+
+open Toy in
+theorem toy_keyOk (lt sq : Nat) (k : Key) : pubkeyOk (tEnv lt sq) (ser k) = true := by
+  simp [pubkeyOk, tEnv, ser]
+
+open Toy in
+theorem toy_agrees (lt sq : Nat) (a : Assets) : Agrees (tEnv lt sq) ke a tσ where
+  pushOne := rfl
+  pushZero := rfl
+  hashDissat := rfl
+  keyShape := toy_keyOk lt sq
+  pkh _ := rfl
+  pubkey _ _ := rfl
+  ecdsa k _ := ⟨by simp [tσ], by simp [tEnv, tσ, ke]⟩
+  schnorr k _ _ := ⟨by simp [tσ], by simp [tEnv, tσ, ke]⟩
+  rawPk h _ _ := ⟨rfl, toy_keyOk lt sq h⟩
+  rawEcdsa h _ _ _ := ⟨by simp [tσ], by simp [tEnv, tσ]⟩
+  rawSchnorr h _ _ _ _ := ⟨by simp [tσ], by simp [tEnv, tσ]⟩
+  preimage _ h _ := ⟨by simp [tσ, pre], rfl⟩
+  zeroNoPreimage _ h := by
+    intro e
+    have := congrArg List.head? e
+    simp [tEnv, ke, toyHash, pre, List.replicate] at this
+  sizeOk p := by cases p <;> simp [tσ, ser, pre]
+
+open Toy in
+theorem toy_typed : typeOf ms = some ty := by decide
+open Toy in
+theorem toy_wf : WF .segwitv0 ms := by simp [ms, WF]
+
+
+/-- `and_v(v:pk(K0),or_d(pk(K1),older(144)))` with a signature for K0 only: the satisfier
+returns `[<empty>, sig(K0)]` and reports the relative lock 144; at nSequence = 144 the encoded
+script accepts the witness, at 143 it is rejected — both by the theorems -/
+example : (satDissat Toy.cfg Toy.ms).sat = ⟨.stack [.pushZero, .ecdsaSig 0], true, none, some 144⟩ ∧
+    Script.accepts (Toy.tEnv 0 144) (encode Toy.ke .segwitv0 Toy.ms) (stk Toy.tσ [.pushZero, .ecdsaSig 0]) = true ∧
+    Script.accepts (Toy.tEnv 0 143) (encode Toy.ke .segwitv0 Toy.ms) (stk Toy.tσ [.pushZero, .ecdsaSig 0]) = false :=
+  ⟨by decide,
+   locks_sufficient_exec (cfg := Toy.cfg) (toy_envOk 0 144) (toy_agrees 0 144 _) Toy.ms Toy.ty
+      toy_wf toy_typed rfl _ (by decide) (by decide) (by decide),
+   locks_necessary_exec_rel (cfg := Toy.cfg) (toy_envOk 0 143) (toy_agrees 0 143 _) Toy.ms Toy.ty
+      toy_wf toy_typed rfl _ (by decide) 144 (by decide) (.inl (by decide))⟩
+
+/-- … and by direct evaluation of the flat interpreter -/
+example :
+    Script.accepts (Toy.tEnv 0 144) (encode Toy.ke .segwitv0 Toy.ms) (stk Toy.tσ [.pushZero, .ecdsaSig 0]) = true ∧
+    Script.accepts (Toy.tEnv 0 143) (encode Toy.ke .segwitv0 Toy.ms) (stk Toy.tσ [.pushZero, .ecdsaSig 0]) = false := by
+  decide +kernel
+
 /-! non-vacuity: `or_d(pk(1), and_v(v:pk(0), and_v(v:after(100), and_v(v:older(10), after(200)))))`
 with a signature for key 0 only, locks up to 200 / 20 available: the reported locks are
 200 / 10 and the executed lists are `[200, 100]` / `[10]`; with both keys the cheaper `pk(1)`
@@ -417,6 +723,93 @@ theorem witness_size_upper_bound (t : List Item) (ls : List Nat) (hlen : ls.leng
         omega
   rw [hlen]; omega
 
+/-- `wpkh`, `sh(wpkh)`, `tr`: the witness `Plan::satisfy` returns is exactly the completed
+template, so the announced `witness_size` bounds its serialized size -/
+theorem witness_size_upper_bound_plan (d : DescData)
+    (hty : d.ty = .wpkh ∨ d.ty = .shWpkh ∨ d.ty = .tr) (t : List Item) (stack : List Bytes)
+    (hlen : stack.length = t.length)
+    (hfit : ∀ q ∈ t.zip stack, q.1.fits q.2.length = true) :
+    serializedWitnessSize (planSatisfy d stack).1 ≤ Plan.witnessSize d.ty t := by
+  have hw : (planSatisfy d stack).1 = stack := by
+    rcases hty with h | h | h <;> simp [planSatisfy, h]
+  have hs : Plan.witnessSize d.ty t = templateSize t := by
+    rcases hty with h | h | h <;> simp [Plan.witnessSize, h, DescType.segwitVersion]
+  rw [hw, hs]
+  unfold serializedWitnessSize
+  split
+  · exact Nat.zero_le _
+  · have := witness_size_upper_bound t (stack.map List.length) (by simpa using hlen)
+      (by
+        intro p hp
+        rw [List.zip_map_right] at hp
+        obtain ⟨q, hq, rfl⟩ := List.mem_map.mp hp
+        exact hfit q hq)
+    simpa [List.map_map, Function.comp_def] using this
+
 example : Plan.witnessSize .tr [.ph (.schnorrSig 0 64)] = templateSize [.ph (.schnorrSig 0 64)] := by decide
+
+/-- `bare`, `pkh`, `sh(<miniscript>)` (the figures the F9 fix corrected): the announced
+`scriptsig_size` — Σ placeholder sizes, + the redeem-script push for `sh`, + the compact size
+of that byte count — bounds the serialized scriptSig `Plan::satisfy` returns, and there is no
+witness.  Side conditions: the items fit their placeholders, the script is 1 or 5..65535
+bytes long (every script with a key or a hash is). -/
+theorem scriptsig_size_upper_bound (d : DescData) (hty : d.ty = .bare ∨ d.ty = .pkh ∨ d.ty = .sh)
+    (t : List Ph) (stack : List Bytes) (hlen : stack.length = t.length)
+    (hfit : ∀ q ∈ t.zip stack, (Item.ph q.1).fits q.2.length = true)
+    (hscript : d.script.length = 1 ∨ (5 ≤ d.script.length ∧ d.script.length ≤ 0xffff)) :
+    serializedScriptSigSize (planSatisfy d stack).2 ≤
+        scriptsigSize d.ty (t.map Item.ph) d.script.length ∧
+    serializedWitnessSize (planSatisfy d stack).1 = 0 := by
+  have hsum : ((t.map Item.ph).map Item.size).sum = (t.map Ph.size).sum := by
+    simp [List.map_map, Function.comp_def, Item.size]
+  have hb := w2ss_length t stack hlen hfit
+  have hsc := w2ssItem_length d.script (by omega)
+  rcases hty with h | h | h
+  · refine ⟨?_, by simp [planSatisfy, h, serializedWitnessSize]⟩
+    simp only [planSatisfy, h, scriptsigSize, DescType.segwitVersion, serializedScriptSigSize, hsum]
+    have := varintLen_mono hb
+    simp; omega
+  · refine ⟨?_, by simp [planSatisfy, h, serializedWitnessSize]⟩
+    simp only [planSatisfy, h, scriptsigSize, DescType.segwitVersion, serializedScriptSigSize, hsum]
+    have := varintLen_mono hb
+    simp; omega
+  · refine ⟨?_, by simp [planSatisfy, h, serializedWitnessSize]⟩
+    simp only [planSatisfy, h, scriptsigSize, DescType.segwitVersion, serializedScriptSigSize, hsum,
+      w2ss_append, List.length_append]
+    have hs1 : (witnessToScriptSig [d.script]).length = (w2ssItem d.script).length := by
+      simp [witnessToScriptSig]
+    have := varintLen_mono (Nat.add_le_add hb (hs1 ▸ hsc))
+    simp [hs1] at this ⊢; omega
+
+/-- non-vacuity: `sh(pk(K))` with a 72-byte signature and a 35-byte redeem script -/
+example : serializedScriptSigSize (planSatisfy ⟨.sh, List.replicate 35 0xac, []⟩ [List.replicate 72 0x30]).2 = 110 ∧
+    scriptsigSize .sh [.ph (.ecdsaSig 0)] 35 = 110 := by decide +kernel
+
+/-- the same bound for `wsh` / `sh(wsh)` witnesses — FALSE of the current code (keyed findings
+`J sizes wsh.` / `J sizes shwsh.`): the witness script is not counted -/
+def wsh_witness_size_bound : Prop :=
+  ∀ (d : DescData), (d.ty = .wsh ∨ d.ty = .shWsh) → ∀ (t : List Item) (stack : List Bytes),
+    stack.length = t.length → (∀ q ∈ t.zip stack, q.1.fits q.2.length = true) →
+    serializedWitnessSize (planSatisfy d stack).1 ≤ Plan.witnessSize d.ty t
+
+theorem wsh_witness_size_bound_false : ¬ wsh_witness_size_bound := by
+  intro h
+  have := h ⟨.wsh, List.replicate 35 0xac, []⟩ (.inl rfl) [.ph (.ecdsaSig 0)] [List.replicate 72 0x30]
+    rfl (by decide)
+  revert this
+  decide +kernel
+
+/-- … and the scriptSig bound for `sh(wpkh)` / `sh(wsh)` — FALSE (keyed findings
+`J sizes shwpkh.` / `J sizes shwsh.`): 23 / 35 announced, 24 / 36 serialized -/
+def sh_segwit_scriptsig_size_bound : Prop :=
+  ∀ (d : DescData), (d.ty = .shWpkh ∧ d.inner.length = 22) ∨ (d.ty = .shWsh ∧ d.inner.length = 34) →
+    ∀ (t : List Item) (stack : List Bytes) (n : Nat),
+      serializedScriptSigSize (planSatisfy d stack).2 ≤ scriptsigSize d.ty t n
+
+theorem sh_segwit_scriptsig_size_bound_false : ¬ sh_segwit_scriptsig_size_bound := by
+  intro h
+  have := h ⟨.shWpkh, [], List.replicate 22 0⟩ (.inl ⟨rfl, by decide⟩) [] [] 0
+  revert this
+  decide +kernel
 
 end MsVerif.C17
